@@ -32,6 +32,14 @@ CHECKS = {
         note='Brackets are passed as one argv element (the documented quoted form); comments containing brackets and non-canonical decimals (-0, 007) are outside the grammar and not asserted. '
              'Known finding C07-xff (sentinel collision) is excluded by construction; one genuine defect was repaired by a fix: commit.',
         design='5/C07'),
+    'C08': dict(
+        technique='differential + metamorphic property-based testing (Hypothesis) of the real btcdeb binary through pipes and pseudo-terminals',
+        text='Generated scripts/stacks/flag removals (incl. exception-raising operands) are run through the unmodified btcdeb binary built with the project flags, script on stdin or in argv, '
+             'with each pipe/pty combination that makes it non-interactive and under the quiet/debug options and DEBUG_* variables. Exit status, stdout (final stack, lowercase hex, bottom to top) '
+             'and stderr (script error) are compared with the reference interpreter; a second delivery/option variant must give the same result; --verbose must be refused; an interactive REPL '
+             'session stepped to the end must show the same stack; script texts around the former 1023-character stdin limit are included.',
+        note='Exception-class failures only require exit 1 and an error report. Process deadlines count as inconclusive. Two genuine defects were repaired by fix: commits.',
+        design='5/C08'),
     'C10': dict(
         technique='constructive boundary-value property-based testing (Hypothesis) with a differential oracle and a directional oracle taken from the statement',
         text='For every limit and every way of reaching it the generator constructs scripts at L-1, L and L+1 for BASE / WITNESS_V0 / TAPSCRIPT; the debugger must '
